@@ -197,7 +197,14 @@ func (c *Ctx) SEC(rule string) []report.Obligation {
 								"the resolved value is stored under the carrier key (secrets) / content (configs) only", "an environment value is stored under key "+desc+", which the renderers do not blank"))
 						case *ssa.Return, *ssa.Store, *ssa.Send:
 							// the services' environment is resolved into the model on purpose (it is not a secret)
-							if strings.Contains(c.P.FuncID(fn), "ervicesEnvironment") {
+							// (the function that fills a service's `environment` key, or whose result a caller stores there)
+							fillsEnv := c.resultStoredUnder(fn, "environment")
+							for _, k := range constMapUpdateKeys(fn) {
+								if k == "environment" {
+									fillsEnv = true
+								}
+							}
+							if fillsEnv {
 								continue
 							}
 							n++
